@@ -135,7 +135,7 @@ def load_known(prop):
 
 
 def write_replay(prop, failure):
-    d = os.path.join(VERIF, "replays", prop)
+    d = os.path.join(VERIF, "replays", prop) if not os.environ.get("VERIF_NO_EVIDENCE") else os.path.join(WORK, "mutant-replays", prop)
     os.makedirs(d, exist_ok=True)
     name = re.sub(r"[^A-Za-z0-9_.-]+", "_", failure["sig"])[:60] + "-" + khash(failure["case"])[:8] + ".json"
     p = os.path.join(d, name)
@@ -145,6 +145,8 @@ def write_replay(prop, failure):
 
 
 def write_evidence(prop, mod, tier, seed, merged, wall, violations):
+    if os.environ.get("VERIF_NO_EVIDENCE"):
+        return
     cov = dict(evaluations=merged["evaluations"], distinct_nontrivial=len(merged["nontrivial"]), rule=mod.RULE,
                samples=merged["samples"][:6] or ["(no non-trivial case was produced)"], classes=merged["classes"],
                known_findings_seen=merged["known_seen"], excluded_by_construction=merged["excluded"],
